@@ -200,6 +200,7 @@ func main() {
 	flag.Parse()
 	logging.SetDefaultLoggerAndFlusher(nopLogger{}, nil)
 	w := tr.NewWriter(*out)
+	statsPath = *stats
 	defer w.Close(*stats)
 	if *rep != "" {
 		for _, c := range tr.ReadCases(*rep) {
@@ -244,6 +245,7 @@ func freePort() int {
 }
 
 var timing = os.Getenv("VERIF_TIMING") != ""
+var statsPath string
 
 func runCase(w *tr.Writer, seed uint64, idx int, focus string) {
 	t0 := time.Now()
@@ -374,7 +376,24 @@ func runCase(w *tr.Writer, seed uint64, idx int, focus string) {
 
 	var peers []*peer
 	settle := 1500 * time.Microsecond
-	quiet := func() { rec.waitQuiet(settle, 3*time.Second) }
+	stuck := 0
+	quiet := func() {
+		if rec.waitQuiet(settle, 3*time.Second) {
+			stuck = 0
+			return
+		}
+		stuck++
+		if stuck >= 2 {
+			// the event loop never goes back to a blocking epoll_wait: it is wedged (e.g. spinning).
+			// Nothing can be stopped or awaited any more: report and leave the process.
+			rec.Fail("loop-stuck", "no-idle", "the event loop did not become idle within 6 s")
+			w.Case(fmt.Sprintf("L%d", idx), "loop", append(cfg.header(), "seed="+tr.U64(seed), "idx="+tr.I(idx))...)
+			w.Fail("loop-stuck", "no-idle", "the event loop did not become idle within 6 s (case aborted, process exits)")
+			w.End()
+			w.Close(statsPath)
+			os.Exit(0)
+		}
+	}
 	woken := func(seq int, max time.Duration) { rec.waitWoken(seq, settle, max) }
 
 	// how long to wait for the loop to react to a peer action on p
